@@ -499,6 +499,7 @@ func init() {
 func init() {
 	// go-containerregistry's validate.Layer recomputes digests through a
 	// goroutine-fed io.Pipe, gzip and sha256: layer validity is assumed.
+	externals["github.com/google/go-containerregistry/pkg/v1/validate.Image"] = func(fr *frame, args []value) value { return iface{} }
 	externals["github.com/google/go-containerregistry/pkg/v1/validate.Layer"] = func(fr *frame, args []value) value {
 		return iface{}
 	}
